@@ -588,7 +588,12 @@ MISSIZED = [
     ("from_be_bytes 12 bits, excess bits", "Uint::<12, 1>::from_be_bytes::<2>([0xff, 0xff])"),
     ("from_le_bytes 63 bits, excess bit", "Uint::<63, 1>::from_le_bytes::<8>([0xff; 8])"),
 ]
-MISSIZED_CONTROL = [("widening_mul 64x64->128", "Uint::<64, 1>::MAX.widening_mul::<64, 1, 128, 2>(Uint::<64, 1>::MAX)"), ("from_be_bytes 12 bits", "Uint::<12, 1>::from_be_bytes::<2>([0x0f, 0xff])")]
+# bytemuck: `Pod` (any bit pattern is a value) is only sound for widths that fill their limbs; for every other width
+# the impl must not exist (compile error) - a cast that compiles must still give a canonical value
+for _b, _l in [(1, 1), (8, 1), (63, 1), (65, 2), (127, 2), (160, 3), (250, 4), (255, 4), (2047, 32), (4095, 64)]:
+    MISSIZED.append((f"bytemuck pod_read_unaligned Uint<{_b},{_l}>", f"bytemuck::pod_read_unaligned::<Uint<{_b}, {_l}>>(&[0xffu8; {8 * _l}])"))
+    MISSIZED.append((f"bytemuck cast [u64; {_l}] -> Uint<{_b},{_l}>", f"bytemuck::cast::<[u64; {_l}], Uint<{_b}, {_l}>>([u64::MAX; {_l}])"))
+MISSIZED_CONTROL = [("bytemuck pod_read_unaligned Uint<128,2>", "bytemuck::pod_read_unaligned::<Uint<128, 2>>(&[0xffu8; 16])"), ("widening_mul 64x64->128", "Uint::<64, 1>::MAX.widening_mul::<64, 1, 128, 2>(Uint::<64, 1>::MAX)"), ("from_be_bytes 12 bits", "Uint::<12, 1>::from_be_bytes::<2>([0x0f, 0xff])")]
 
 
 def missized_check(args):
